@@ -39,10 +39,20 @@ Matrix(p, w) ==
     [] p = "com_lin" -> << <<E(1), Zero, E(2), Zero, Zero>>, <<Zero, E(1), Zero, E(2), Zero>>, <<Scale(2, E(1)), Scale(3, E(1)), Zero, Zero, E(2)>> >>   \* x = 2 x1 + 3 x2
     [] p = "com_mult" -> << <<E(1), E(2), Zero, Zero, Zero>>, <<Zero, Zero, E(1), E(2), Zero>>, <<Zero, Zero, C1(w[1], w[2]), Zero, E(2)>> >>           \* (x1, r1, x2, r2, s)
     [] p = "vcom_eq" -> << <<E(1), E(2), E(3), Zero>>, <<E(4), Zero, Zero, E(5)>> >>                                                             \* (x1, x2, r, r1)
+    \* encrypted transfer: witness (sk, a1, a2, ra1, ra2, s1, s2, rs1, rs2); pk_s = sk g; S2 = sk S1 + (a1 + 2 a2 + s1 + 2 s2) h (the weight of chunk j is 2^(32 j), here 2);
+    \* A_j = (ra_j g, a_j h + ra_j pk_r); S'_j = (rs_j g, s_j h + rs_j pk_s)
+    [] p = "enc_trans" ->
+         LET g == E(1) h == E(2) pkr == Scale(2, E(1)) pks == Scale(w[1], E(1)) s1c == E(3) h2 == Scale(2, E(2)) IN
+         << <<g, Zero, Zero, Zero, Zero, Zero, Zero, Zero, Zero>>,
+            <<s1c, h, h2, Zero, Zero, h, h2, Zero, Zero>>,
+            <<Zero, Zero, Zero, g, Zero, Zero, Zero, Zero, Zero>>, <<Zero, h, Zero, pkr, Zero, Zero, Zero, Zero, Zero>>,
+            <<Zero, Zero, Zero, Zero, g, Zero, Zero, Zero, Zero>>, <<Zero, Zero, h, Zero, pkr, Zero, Zero, Zero, Zero>>,
+            <<Zero, Zero, Zero, Zero, Zero, Zero, Zero, g, Zero>>, <<Zero, Zero, Zero, Zero, Zero, h, Zero, pks, Zero>>,
+            <<Zero, Zero, Zero, Zero, Zero, Zero, Zero, Zero, g>>, <<Zero, Zero, Zero, Zero, Zero, Zero, h, Zero, pks>> >>
     [] p = "and_dlog_com_eq" -> << <<E(1), Zero, Zero>>, <<Zero, E(2), E(3)>>, <<Zero, E(4), Zero>> >>       \* AND composition: block diagonal, one challenge
     [] p = "replicate_dlog" -> << <<E(1), Zero>>, <<Zero, E(2)>> >>                                         \* replicated composition
 WitnessDim(p) == CASE p = "dlog" -> 1 [] p = "aggregate_dlog" -> 3 [] p = "dlog_eq" -> 1 [] p = "com_eq" -> 2 [] p = "com_eq_different_groups" -> 3
-                   [] p = "com_enc_eq" -> 3 [] p = "com_lin" -> 5 [] p = "com_mult" -> 5 [] p = "vcom_eq" -> 4 [] p = "and_dlog_com_eq" -> 3 [] p = "replicate_dlog" -> 2
+                   [] p = "com_enc_eq" -> 3 [] p = "com_lin" -> 5 [] p = "com_mult" -> 5 [] p = "vcom_eq" -> 4 [] p = "and_dlog_com_eq" -> 3 [] p = "replicate_dlog" -> 2 [] p = "enc_trans" -> 9
 (* names of the public inputs and of the response components, for the implementation rows *)
 Publics(p) == CASE p = "dlog" -> <<"public", "coeff">> [] p = "aggregate_dlog" -> <<"public", "coeff_0", "coeff_2">> [] p = "dlog_eq" -> <<"public_1", "public_2", "coeff_1">>
                 [] p = "com_eq" -> <<"commitment", "y", "cmm_key_g", "cmm_key_h", "g">> [] p = "com_eq_different_groups" -> <<"commitment_1", "commitment_2", "cmm_key_1", "cmm_key_2">>
@@ -50,6 +60,7 @@ Publics(p) == CASE p = "dlog" -> <<"public", "coeff">> [] p = "aggregate_dlog" -
                 [] p = "com_lin" -> <<"us_0", "cmms_0", "cmms_1", "cmm", "cmm_key">> [] p = "com_mult" -> <<"cmms_0", "cmms_1", "cmms_2", "cmm_key">>
                 [] p = "vcom_eq" -> <<"comm", "comms_0", "gis_0", "h", "g_bar", "h_bar">>
                 [] p = "and_dlog_com_eq" -> <<"first_public", "second_y", "second_commitment">> [] p = "replicate_dlog" -> <<"public_0", "public_last", "swap">>
+                [] p = "enc_trans" -> <<"dlog_public", "elg_dec_public", "encexp1_0_commitment", "encexp2_1_y">>
 
 VARIABLES w, r, c
 svars == <<w, r, c>>
@@ -77,7 +88,7 @@ SpecialSound == \A c2 \in Fld \ {c} :
                    IN Apply(M, wx) = Y
 (* rows for the implementation: every witness component at a boundary class with the others random, every perturbation target *)
 WClasses == {[j \in 1..N |-> "rand"]} \cup {[j \in 1..N |-> IF j = k THEN cl ELSE "rand"] : k \in 1..N, cl \in {"0", "1", "r-1"}} \cup {[j \in 1..N |-> "0"]}
-Targets == {"none", "context", "challenge"} \cup {Publics(Proto)[i] : i \in 1..Len(Publics(Proto))} \cup {"response_" \o ToString(j - 1) : j \in 1..N}
+Targets == {"none", "context", "challenge", "challenge_msb", "response_surplus"} \cup {Publics(Proto)[i] : i \in 1..Len(Publics(Proto))} \cup {"response_" \o ToString(j - 1) : j \in 1..N}
 Rows == {[kind |-> "sigma", protocol |-> Proto, wclass |-> wc, perturb |-> t] : wc \in WClasses, t \in Targets}
 ASSUME PrintT(<<"ROWS", ToJson(Rows)>>)
 =============================================================================
